@@ -40,6 +40,10 @@ type avoid struct {
 	phantomReserved     bool
 	snapshotReserved    bool
 	concurrentKeyInsert bool
+	ttlDuringPass       bool
+	schemaChange        bool
+	blockGrowth         bool
+	enumBesideReaders   bool
 	rollbackInsert      bool
 	sortDupKeys         bool
 	rekey               bool
@@ -62,6 +66,10 @@ func (a avoid) list() (out []string) {
 	add(a.phantomReserved, "phantom-reserved")
 	add(a.snapshotReserved, "snapshot-reserved")
 	add(a.concurrentKeyInsert, "concurrent-key-insert")
+	add(a.ttlDuringPass, "ttl-change-during-pass")
+	add(a.schemaChange, "schema-change-beside-activity")
+	add(a.blockGrowth, "growth-beside-readers")
+	add(a.enumBesideReaders, "enum-write-beside-readers")
 	add(a.rollbackInsert, "rollback-insert")
 	return
 }
